@@ -75,10 +75,10 @@ Definition run_op (w : world) (o : op) : MS value :=
   | OCopy src u =>
       match w !! src with
       | None => raise EKey
-      | Some ssrc => r <- copy_bdd ssrc u ;; ret (VZ r)
+      | Some ssrc => r <- copy_bdd_pub ssrc u ;; ret (VZ r)
       end
-  | OImage t s bn rn qbn q fa => r <- image t s bn rn qbn q fa ;; ret (VZ r)
-  | OPreimage t s bn rn qbn q fa => r <- preimage t s bn rn qbn q fa ;; ret (VZ r)
+  | OImage t s bn rn qbn q fa => r <- image_pub t s bn rn qbn q fa ;; ret (VZ r)
+  | OPreimage t s bn rn qbn q fa => r <- preimage_pub t s bn rn qbn q fa ;; ret (VZ r)
   | OSupport u => r <- support u ;; ret (vset r)
   | OIsEssential u v => r <- is_essential u v ;; ret (VB r)
   end.
